@@ -122,7 +122,7 @@ func TestVerif_C10_CrashInRotation(t *testing.T) {
 				w.keys, w.thr = keys, nt
 				w.tc.keys = keys
 			case "seal-unseal":
-				if err := tc.c.sealInternal(); err != nil {
+				if err := tc.seal(); err != nil {
 					t.Fatalf("harness: seal: %v", err)
 				}
 				if err := tc.unseal(w.keys); err != nil {
